@@ -220,7 +220,9 @@ theorem setRandomSeed_no_entropy (x : Option Int) :
     · subst h1; simp [codeShape, SeedShape.setRandomSeed, SeedShape.resetAct, SeedTest.eval]
     · by_cases h2 : n < -1
       · simp [codeShape, SeedShape.setRandomSeed, SeedShape.resetAct, SeedTest.eval, h1, h2]
-      · simp [codeShape, SeedShape.setRandomSeed, SeedShape.resetAct, SeedTest.eval, h1, h2]
+      · by_cases h3 : n.toNat < 4294967296
+        · simp [codeShape, SeedShape.setRandomSeed, SeedShape.resetAct, SeedTest.eval, h1, h2, h3]
+        · simp [codeShape, SeedShape.setRandomSeed, SeedShape.resetAct, SeedTest.eval, h1, h2, h3]
 
 theorem Discharge.justified : ∀ d : Discharge, d.Justified := by
   intro d
